@@ -16,6 +16,7 @@ package limits
 
 import (
 	"errors"
+	"math"
 	"sort"
 	"strconv"
 	"strings"
@@ -176,6 +177,11 @@ func parseSize(sizeStr string) int64 {
 		if strings.HasSuffix(sizeStr, unit.symbol) {
 			size, err := strconv.ParseInt(sizeStr[0:len(sizeStr)-len(unit.symbol)], 10, 64)
 			if err != nil {
+				return -1
+			}
+			if size > math.MaxInt64/unit.multiplier {
+				// the byte count does not fit (it would wrap
+				// around to some small limit)
 				return -1
 			}
 			return size * unit.multiplier
